@@ -299,6 +299,8 @@ def main():
             why = []
             if changed:
                 why.append("anchored source changed: " + ", ".join(changed))
+            if os.environ.get("VERIF_FORCE_ESCALATE") == "1":
+                why.append("forced (VERIF_FORCE_ESCALATE=1, used to time the second pass)")
             if proof_broken:
                 why.append("proof side broken: " + proof_broken[0])
             if result.get("model_disagreements"):
